@@ -12,7 +12,7 @@ Atomic actions (one event each):
   publication `result = …; err = …; close(done)` (`publish`; the two field writes are invisible
   to everyone until the close, which is the release point, so they are one event with the close);
 * `Await*` on a `Promise`: one `select` decision (`awSel t branch`);
-* container `SetPromise` / `SetResult`: one `HoldLock` critical section;
+* container `SetPromise` / `SetResult`: one `HoldLock` critical section (`cWCS`);
 * container `Await*`: the sampling critical section (`cSample`), the `select` of the `prom == nil`
   branch (`cNilSel`), the `select` inside the inner `AwaitWithCancelCh(ctx, waitCh)` (`cInnerSel`),
   the `ctx.Err()` test (`cChk1`) and the non-blocking `select` on `waitCh` (`cChk2`) that tells
@@ -46,6 +46,12 @@ inductive PRef where
   | fixed (t : Nat) (e : Err)
 deriving DecidableEq, Repr, Inhabited, Hashable
 
+/-- a container writer call: `SetPromise(p)` or `SetResult(id+1, e)` -/
+inductive CW where
+  | setp (p : Option Nat)
+  | res (e : Err)
+deriving DecidableEq, Repr, Inhabited, Hashable
+
 /-- branch taken by a `select` -/
 inductive Branch where
   | ctx   -- `<-ctx.Done()`
@@ -61,12 +67,11 @@ inductive TS where
   | setRet (p v : Nat) (e : Err) (b : Bool) -- about to return `b`
   | setDone (p v : Nat) (e : Err) (b : Bool)
   | awWait (p : Nat) (k : AK)               -- in the select of Promise.Await*
-  | awRet (o : Option Nat) (v : Nat) (e : Err)   -- select decided; about to return (v, e); `o` = the plain promise awaited (none: container)
-  | awDone (o : Option Nat) (v : Nat) (e : Err)
-  | cSetInv (p : Option Nat)                -- container SetPromise invoked
-  | cResInv (e : Err)                       -- container SetResult invoked (value = id+1)
-  | cRet (isRes : Bool)                     -- SetPromise (false) / container SetResult (true) about to return
-  | cDone
+  | awRet (o : Option Nat) (k : AK) (v : Nat) (e : Err)  -- select decided; about to return (v, e); `o` = the plain promise awaited (none: container)
+  | awDone (o : Option Nat) (k : AK) (v : Nat) (e : Err)
+  | cWInv (w : CW)                          -- container SetPromise / SetResult invoked; critical section pending
+  | cRet (w : CW)                           -- … critical section done; about to return
+  | cDone (w : CW)
   | cHead (k : AK)                          -- container Await*: top of the loop
   | cNil (k : AK) (c : Nat)                 -- sampled `nil`; select on ctx / own channel / waitCh `c`
   | cInner (k : AK) (r : PRef) (c : Nat)    -- sampled `r`; inside r.AwaitWithCancelCh(ctx, waitCh)
@@ -121,10 +126,9 @@ inductive Ev where
   | envCancel (t : Nat)
   | envFire (t : Nat) (f : Fire)
   | invCSetP (t : Nat) (p : Option Nat)
-  | cSetCS (t : Nat)
+  | cWCS (t : Nat)                    -- the critical section of a container writer
   | retCSetP (t : Nat)
   | invCRes (t v : Nat) (e : Err)
-  | cResCS (t : Nat)
   | retCRes (t : Nat)
   | invCAwait (t : Nat) (k : AK)
   | cSample (t : Nat)
@@ -170,13 +174,13 @@ def Obs.evs : Obs → List Ev
 
 /-- the thread an internal event belongs to -/
 def Ev.thread : Ev → Option Nat
-  | .swap t | .publish t | .awSel t _ | .cSetCS t | .cResCS t | .cSample t | .cNilSel t _
+  | .swap t | .publish t | .awSel t _ | .cWCS t | .cSample t | .cNilSel t _
   | .cInnerSel t _ | .cChk1 t | .cChk2 t => some t
   | _ => none
 
 def internalCands (n : Nat) : List Ev :=
   (List.range n).flatMap fun t =>
-    [.swap t, .publish t, .awSel t .ctx, .awSel t .usr, .awSel t .res, .cSetCS t, .cResCS t, .cSample t,
+    [.swap t, .publish t, .awSel t .ctx, .awSel t .usr, .awSel t .res, .cWCS t, .cSample t,
      .cNilSel t .ctx, .cNilSel t .usr, .cNilSel t .wait,
      .cInnerSel t .ctx, .cInnerSel t .wait, .cInnerSel t .res, .cChk1 t, .cChk2 t]
 
@@ -217,11 +221,11 @@ def Th.quiet (s : St) (th : Th) : Bool :=
   | .awWait p k => !th.cx && !usrFired k th.ch && (published s (.plain p)).isNone
   | .cNil k c => !th.cx && !usrFired k th.ch && !s.bc.closed c
   | .cInner _ r c => !th.cx && !s.bc.closed c && (published s r).isNone
-  | .setDone .. | .awDone .. | .cDone => true
+  | .setDone .. | .awDone .. | .cDone _ => true
   | _ => false
 
 def TS.pending : TS → Bool
-  | .setDone .. | .awDone .. | .cDone => false
+  | .setDone .. | .awDone .. | .cDone _ => false
   | _ => true
 
 def pendingIds (s : St) : List Nat :=
@@ -267,12 +271,12 @@ def step (s : St) : Ev → Option St
     | some th => match th.ts with
       | .awWait p k =>
         match br with
-        | .ctx => if th.cx then some (setTs s t th (.awRet (some p) 0 .canceled)) else none
+        | .ctx => if th.cx then some (setTs s t th (.awRet (some p) k 0 .canceled)) else none
         | .usr => match usrPlain k th.ch with
-          | some (v, e) => some (setTs s t th (.awRet (some p) v e))
+          | some (v, e) => some (setTs s t th (.awRet (some p) k v e))
           | none => none
         | .res => match published s (.plain p) with
-          | some (v, e) => some (setTs s t th (.awRet (some p) v e))
+          | some (v, e) => some (setTs s t th (.awRet (some p) k v e))
           | none => none
         | .wait => none
       | _ => none
@@ -280,7 +284,7 @@ def step (s : St) : Ev → Option St
   | .retAwait t v e =>
     match s.th[t]? with
     | some th => match th.ts with
-      | .awRet o v' e' => if v = v' ∧ e = e' then some (setTs s t th (.awDone o v e)) else none
+      | .awRet o k v' e' => if v = v' ∧ e = e' then some (setTs s t th (.awDone o k v e)) else none
       | _ => none
     | none => none
   | .envCancel t =>
@@ -293,34 +297,31 @@ def step (s : St) : Ev → Option St
     | none => none
   | .invCSetP t p =>
     if t = s.th.length ∧ (p.all (· < s.proms.length)) = true then
-      some { s with th := s.th ++ [{ ts := .cSetInv p }] } else none
-  | .cSetCS t =>
+      some { s with th := s.th ++ [{ ts := .cWInv (.setp p) }] } else none
+  | .cWCS t =>
     match s.th[t]? with
     | some th => match th.ts with
-      | .cSetInv p =>
+      | .cWInv (.setp p) =>
         -- container.go:39-44: `if c.promise != p { c.promise = p; broadcast() }`
-        if s.slot = p.map .plain then some (setTs s t th (.cRet false))
-        else some { setTs s t th (.cRet false) with slot := p.map .plain, bc := s.bc.broadcast }
+        if s.slot = p.map .plain then some (setTs s t th (.cRet (.setp p)))
+        else some { setTs s t th (.cRet (.setp p)) with slot := p.map .plain, bc := s.bc.broadcast }
+      | .cWInv (.res e) =>
+        -- container.go:51-56: a fresh pre-resolved promise replaces the content
+        some { setTs s t th (.cRet (.res e)) with slot := some (.fixed t e), bc := s.bc.broadcast }
       | _ => none
     | none => none
   | .retCSetP t =>
     match s.th[t]? with
     | some th => match th.ts with
-      | .cRet false => some (setTs s t th .cDone)
+      | .cRet (.setp p) => some (setTs s t th (.cDone (.setp p)))
       | _ => none
     | none => none
   | .invCRes t v e =>
-    if t = s.th.length ∧ v = t + 1 then some { s with th := s.th ++ [{ ts := .cResInv e }] } else none
-  | .cResCS t =>
-    match s.th[t]? with
-    | some th => match th.ts with
-      | .cResInv e => some { setTs s t th (.cRet true) with slot := some (.fixed t e), bc := s.bc.broadcast }
-      | _ => none
-    | none => none
+    if t = s.th.length ∧ v = t + 1 then some { s with th := s.th ++ [{ ts := .cWInv (.res e) }] } else none
   | .retCRes t =>
     match s.th[t]? with
     | some th => match th.ts with
-      | .cRet true => some (setTs s t th .cDone)
+      | .cRet (.res e) => some (setTs s t th (.cDone (.res e)))
       | _ => none
     | none => none
   | .invCAwait t k =>
@@ -340,9 +341,9 @@ def step (s : St) : Ev → Option St
     | some th => match th.ts with
       | .cNil k c =>
         match br with
-        | .ctx => if th.cx then some (setTs s t th (.awRet none 0 .canceled)) else none
+        | .ctx => if th.cx then some (setTs s t th (.awRet none k 0 .canceled)) else none
         | .usr => match usrNil k th.ch with
-          | some (v, e) => some (setTs s t th (.awRet none v e))
+          | some (v, e) => some (setTs s t th (.awRet none k v e))
           | none => none
         | .wait => if s.bc.closed c then some (setTs s t th (.cHead k)) else none
         | .res => none
@@ -357,9 +358,9 @@ def step (s : St) : Ev → Option St
         | .ctx => if th.cx then some (setTs s t th (.cChk1 k c 0)) else none
         | .wait => if s.bc.closed c then some (setTs s t th (.cChk1 k c 0)) else none
         | .res => match published s r with
-          | some (v, .nil) => some (setTs s t th (.awRet none v .nil))
+          | some (v, .nil) => some (setTs s t th (.awRet none k v .nil))
           | some (v, .canceled) => some (setTs s t th (.cChk1 k c v))
-          | some (v, e) => some (setTs s t th (.awRet none v e))
+          | some (v, e) => some (setTs s t th (.awRet none k v e))
           | none => none
         | .usr => none
       | _ => none
@@ -368,14 +369,14 @@ def step (s : St) : Ev → Option St
     match s.th[t]? with
     | some th => match th.ts with
       | .cChk1 k c v =>
-        if th.cx then some (setTs s t th (.awRet none v .canceled)) else some (setTs s t th (.cChk2 k c v))
+        if th.cx then some (setTs s t th (.awRet none k v .canceled)) else some (setTs s t th (.cChk2 k c v))
       | _ => none
     | none => none
   | .cChk2 t =>
     match s.th[t]? with
     | some th => match th.ts with
       | .cChk2 k c v =>
-        if s.bc.closed c then some (setTs s t th (.cHead k)) else some (setTs s t th (.awRet none v .canceled))
+        if s.bc.closed c then some (setTs s t th (.cHead k)) else some (setTs s t th (.awRet none k v .canceled))
       | _ => none
     | none => none
   | .quiesce _ B => if quiescent s ∧ B = pendingIds s then some s else none
